@@ -2,7 +2,7 @@
     duplication and batching.  Statements only. *)
 From Coq Require Import List NArith Permutation.
 From MOC.Base Require Import RangeSet.
-From MOC.Model Require Import Qty Ops1D Build BuilderSM.
+From MOC.Model Require Import Qty Ops1D Build BuilderSM BuilderSM2.
 Import ListNotations.
 Open Scope N_scope.
 
@@ -76,6 +76,25 @@ Theorem C06_buffer_fusion_exact : forall l, nd 0 l ->
   Canon (cells_to_ranges l) /\ forall x, cov (cells_to_ranges l) x <-> In x l.
 Proof. exact cells_to_ranges_spec. Qed.
 
+
+(** the buffering state machine of RangeMocBuilder (Model/BuilderSM2.v: degradation of each
+    pushed range, in-place merge with the last buffered range when they overlap or touch,
+    sorted-flag tracking, drain at capacity, sort by start unless known sorted, MergeIterator,
+    union with the MOC of earlier flushes) equals the specification for every sequence of
+    non-empty ranges and EVERY capacity - with ANY sort function that returns the same elements
+    ordered by start (all that is assumed of sort_unstable_by) *)
+Theorem C06_range_builder_state_machine :
+  forall (sortf : list range -> list range),
+  (forall l r, In r (sortf l) <-> In r l) -> (forall l, by_start 0 (sortf l)) ->
+  forall q w d cap l, NonEmptyR l ->
+  rbuild sortf (shift q w d) cap l = build_ranges q w d l.
+Proof. intros sortf H1 H2 q w d cap l Hne. exact (rbuild_eq_spec sortf H1 H2 (shift q w d) cap l Hne). Qed.
+
+(** MergeIterator (merge_sorted) on a list sorted by start: canonical, same covered set *)
+Theorem C06_merge_sorted_exact : forall l, by_start 0 l -> NonEmptyR l ->
+  Canon (merge_sorted l) /\ forall x, cov (merge_sorted l) x <-> cov l x.
+Proof. exact merge_sorted_spec. Qed.
+
 Example C06_nonvacuous_builder :
   build (shift Hpx 16 1) 2 [7; 3; 4; 3; 3; 8; 4] = build_cells Hpx 16 1 [7; 3; 4; 3; 3; 8; 4] /\
   build (shift Hpx 16 1) 2 [7; 3; 4; 3; 3; 8; 4] = [(768, 1280); (1792, 2304)] /\
@@ -96,3 +115,5 @@ Print Assumptions C06_kway_and.
 Print Assumptions C06_kway_xor.
 Print Assumptions C06_fixed_depth_builder_state_machine.
 Print Assumptions C06_buffer_fusion_exact.
+Print Assumptions C06_range_builder_state_machine.
+Print Assumptions C06_merge_sorted_exact.
